@@ -778,10 +778,13 @@ def apalache_dispatch_core(ctx):
     """unbounded part: DispatchOk / NoNullCall is an inductive invariant of the dispatch core (all int values of rfc, any history)"""
     src = os.path.join(vlib.VERIF, "spec", "apalache", "EavCore.tla")
     done = 0
+    jt = ctx.path("apalache", "jtmp", "x")[:-2]
+    os.makedirs(jt, exist_ok=True)
     for init, length in (("Init", 0), ("IndInit", 1)):
         od = ctx.path("apalache", "%s" % init, "x")[:-2]
         r = subprocess.run(["timeout", "600", "apalache-mc", "check", "--init=" + init, "--inv=IndInv", "--length=%d" % length,
-                            "--out-dir=" + od, src], stdout=subprocess.PIPE, stderr=subprocess.STDOUT, text=True, cwd=ctx.scratch)
+                            "--out-dir=" + od, src], stdout=subprocess.PIPE, stderr=subprocess.STDOUT, text=True, cwd=ctx.scratch,
+                           env=dict(os.environ, TMPDIR=jt))      # the launcher makes its java.io.tmpdir with mktemp -t
         if "The outcome is: NoError" in r.stdout:
             done += 1
         else:
